@@ -20,6 +20,9 @@ From TS Require Proofs.C15_ScalaItem.
 From TS Require Proofs.C15_PythonItem.
 From TS Require Import Spec.C15RenderPyFile.
 From TS Require Proofs.C15_PythonFile.
+From TS Require Import Spec.C15RenderKtSc.
+From TS Require Proofs.C15_KotlinFile.
+From TS Require Proofs.C15_ScalaFile.
 Import ListNotations.
 
 (* ---- front end (after the repair of parse_comment_attrs): a doc attribute with value v - which is what `/// v`,
@@ -762,3 +765,98 @@ Theorem C15_py_file_line_free : forall (uc : unicode), unicode_ok uc -> forall (
     c15_contained C15py LCode (mark (c15_file_pieces C15py parts)) = true.
 Proof. exact Proofs.C15_PythonFile.C15_py_file_line_free_stmt. Qed.
 Print Assumptions C15_py_file_line_free.
+(* ======================= Kotlin, WHOLE FILES =======================
+   kt_generate: the header (unless the package name is empty: the version block comment `/** .. Generated by typeshare
+   <version> .. */` unless no_version_header is set, the line `package <name>`, the two import lines for Serializable and
+   SerialName), then the items in topological order; Kotlin's printer has no state and its end_file writes nothing.  No
+   neutrality hypothesis.  For every parsed program whose items are in the class of C15_kt_item (c15_item_strict), with a
+   plain prefix and plain type_mappings targets as there, a plain package name (no `/`, no double or single quote: it is
+   printed bare) and a version string without `*` and `/` ([c15_version_nested_ok], Spec/C15RenderKtSc.v: it is printed
+   inside a block comment, which nests for the Kotlin reference lexer): the generated file is code parts and `/// `
+   fragments whose doc strings are exactly the doc strings of the items in output order (a permutation of the program's
+   items; per item the helper data classes first) - the header contributes none, it is code the lexer reads from code mode
+   back into code mode - and the file is contained iff all these strings are safe_kt (no LF / CR).  A program with a
+   constant is not generated at all (kotlin.rs write_const is an error), so the statement is about the three other item
+   kinds.  Second theorem: with doc strings free of line breaks (every parsed item: C15_parsed_*_line_free) the file is
+   contained. ---- *)
+Theorem C15_kt_file : forall (uc : unicode) (cfg : kt_config),
+  c15_plain C15kt (kt_prefix cfg) = true ->
+  c15_mappings_plain C15kt (kt_type_mappings cfg) = true ->
+  c15_plain C15kt (kt_package cfg) = true ->
+  c15_version_nested_ok (kt_version cfg) = true ->
+  forall pd text,
+  forallb (c15_item_strict C15kt Kotlin) (items_of pd) = true ->
+  kt_generate uc cfg pd = Ok text ->
+  exists items parts,
+    topsort (items_of pd) = Ok items /\ Permutation items (items_of pd) /\
+    text = text_of (c15_file_pieces C15kt parts) /\
+    docs_of (c15_file_pieces C15kt parts) = flat_map c15_item_docs_helpers_first items /\
+    c15_contained C15kt LCode (mark (c15_file_pieces C15kt parts)) =
+    forallb safe_kt (flat_map c15_item_docs_helpers_first items).
+Proof. exact Proofs.C15_KotlinFile.C15_kt_file. Qed.
+Print Assumptions C15_kt_file.
+Theorem C15_kt_file_line_free : forall (uc : unicode) (cfg : kt_config),
+  c15_plain C15kt (kt_prefix cfg) = true ->
+  c15_mappings_plain C15kt (kt_type_mappings cfg) = true ->
+  c15_plain C15kt (kt_package cfg) = true ->
+  c15_version_nested_ok (kt_version cfg) = true ->
+  forall pd text,
+  forallb (c15_item_strict C15kt Kotlin) (items_of pd) = true ->
+  Forall (fun it => Forall (fun d => safe_line eol_lf_cr d = true) (c15_item_docs it)) (items_of pd) ->
+  kt_generate uc cfg pd = Ok text ->
+  exists items parts,
+    topsort (items_of pd) = Ok items /\ Permutation items (items_of pd) /\
+    text = text_of (c15_file_pieces C15kt parts) /\
+    docs_of (c15_file_pieces C15kt parts) = flat_map c15_item_docs_helpers_first items /\
+    c15_contained C15kt LCode (mark (c15_file_pieces C15kt parts)) = true.
+Proof. exact Proofs.C15_KotlinFile.C15_kt_file_line_free. Qed.
+Print Assumptions C15_kt_file_line_free.
+
+(* ======================= Scala, WHOLE FILES =======================
+   sc_generate (scala.rs overrides generate_types): begin_file - the version block comment `/** .. Generated by typeshare
+   <version> .. */` unless no_version_header is set, then `package <parent>` when the package name has a dot (an empty
+   package name is an error) -; when there is a type alias or an unsigned integer type is used, the package object
+   (`package object <last> {`, the block of helper aliases UByte .. ULong if needed, the type aliases, `}`); when there is a
+   struct or an enum, the package (`package <last> {`, the structs, the enums, `}`).  generate_types does NOT sort
+   topologically here: the output order is [c15_sc_file_items pd] (Spec/C15RenderKtSc.v) - the type aliases, then the
+   structs, then the enums, each group in ParsedData order -, and constants are not printed: the first theorem says that
+   this list followed by the constants is items_of pd.  The Scala printer has no state; end_file writes nothing.
+   No neutrality hypothesis.  For every parsed program whose items are in the class of C15_sc_item (c15_item_strict;
+   constants are always in it), with plain type_mappings targets as there, a plain package name (no `/`, no double or
+   single quote: its two halves are printed bare) and a version string without `*` and `/` ([c15_version_nested_ok]: it
+   is printed inside a block comment, which nests for the Scala reference lexer): the generated file is code parts and
+   `// ` fragments whose doc strings are exactly the doc strings of the items in this output order (per enum the helper
+   case classes first) - header, package lines, helper aliases and closing braces contribute none: they are code the lexer
+   reads from code mode back into code mode - and the file is contained iff all these strings are safe_sc (no LF / CR).
+   Third theorem: with doc strings free of line breaks (every parsed item: C15_parsed_*_line_free) the file is contained. ---- *)
+Theorem C15_sc_file_items_order : forall pd, items_of pd = c15_sc_file_items pd ++ map ItConst (p_consts pd).
+Proof. exact Proofs.C15_ScalaFile.c15_sc_file_items_order. Qed.
+Print Assumptions C15_sc_file_items_order.
+Theorem C15_sc_file : forall (uc : unicode) (cfg : sc_config),
+  c15_mappings_plain C15sc (sc_type_mappings cfg) = true ->
+  c15_plain C15sc (sc_package cfg) = true ->
+  c15_version_nested_ok (sc_version cfg) = true ->
+  forall pd text,
+  forallb (c15_item_strict C15sc Scala) (items_of pd) = true ->
+  sc_generate uc cfg pd = Ok text ->
+  exists parts,
+    text = text_of (c15_file_pieces C15sc parts) /\
+    docs_of (c15_file_pieces C15sc parts) = flat_map c15_item_docs_helpers_first (c15_sc_file_items pd) /\
+    c15_contained C15sc LCode (mark (c15_file_pieces C15sc parts)) =
+    forallb safe_sc (flat_map c15_item_docs_helpers_first (c15_sc_file_items pd)).
+Proof. exact Proofs.C15_ScalaFile.C15_sc_file. Qed.
+Print Assumptions C15_sc_file.
+Theorem C15_sc_file_line_free : forall (uc : unicode) (cfg : sc_config),
+  c15_mappings_plain C15sc (sc_type_mappings cfg) = true ->
+  c15_plain C15sc (sc_package cfg) = true ->
+  c15_version_nested_ok (sc_version cfg) = true ->
+  forall pd text,
+  forallb (c15_item_strict C15sc Scala) (items_of pd) = true ->
+  Forall (fun it => Forall (fun d => safe_line eol_lf_cr d = true) (c15_item_docs it)) (items_of pd) ->
+  sc_generate uc cfg pd = Ok text ->
+  exists parts,
+    text = text_of (c15_file_pieces C15sc parts) /\
+    docs_of (c15_file_pieces C15sc parts) = flat_map c15_item_docs_helpers_first (c15_sc_file_items pd) /\
+    c15_contained C15sc LCode (mark (c15_file_pieces C15sc parts)) = true.
+Proof. exact Proofs.C15_ScalaFile.C15_sc_file_line_free. Qed.
+Print Assumptions C15_sc_file_line_free.
